@@ -107,16 +107,23 @@ def Entry.view (e : Entry) : EntryView :=
 
 def verOf (vers : List Ver) (k : Nat) : Ver := vers.getD k ⟨none, none⟩
 
+/-- the origin's reply for a verdict: 412, 304 (with the extra Content-Length when scripted), or 200 -/
+def replyOf (v : Ref.Verdict) (k : Nat) (cl : Option Nat) : OReply :=
+  match v with
+  | .preconditionFailed => .precond
+  | .notModified => .notMod k cl
+  | .perform => .ok k
+
+/-- what the origin concludes from the conditional headers it received -/
+def originVerdict (vers : List Ver) (st : Step) (f : Fwd) : Ref.Verdict :=
+  Ref.eval f.inm f.im f.ims.toTime (verOf vers st.k).etag (verOf vers st.k).lm
+
 /-- the scripted origin -/
 def originReply (vers : List Ver) (st : Step) (f : Fwd) : OReply :=
   match st.omode with
   | .err => .error
-  | m =>
-    let v := verOf vers st.k
-    match Ref.eval f.inm f.im f.ims.toTime v.etag v.lm with
-    | .preconditionFailed => .precond
-    | .notModified => .notMod st.k (match m with | .cl n => some n | _ => none)
-    | .perform => .ok st.k
+  | .ref => replyOf (originVerdict vers st f) st.k none
+  | .cl n => replyOf (originVerdict vers st f) st.k (some n)
 
 def trimFields (f : Option (List Bytes)) : Option (List Bytes) := f.map (·.map trimValue)
 
